@@ -33,6 +33,14 @@ def run_batch(arg):
         mass.init(t)
         density.init(t)
         tabs["T1"] = t
+        # a private table whose owner redefined the valid charges of three elements after building it
+        t2 = core.PeriodicTable("T2")
+        mass.init(t2)
+        density.init(t2)
+        t2.Fe.ions = (2, 3)                 # 6+ and the uncommon ones removed
+        t2.Ne.ions = (1,)                   # a charge for an element that had none
+        t2.Na.ions = tuple(sorted((set(t2.Na.ions) | {2}) - {1}))
+        tabs["T2"] = t2
     out = []
     for s, T in arg["items"]:
         try:
